@@ -17,8 +17,8 @@ func c16Sequences(e *Env) {
 		k := 2 + rg.Intn(5)
 		type item struct {
 			name, src string
-			data     []byte
-			keep     string
+			data      []byte
+			keep      string
 		}
 		items := make([]item, k)
 		res := guarded(func() (string, error) {
